@@ -9,7 +9,7 @@ PID = "C01"
 MODULE = "Check.C01"
 VERDICT = "verdict_C01 [] []"
 CLASS_BITS = {16: "K_import_provenance"}
-NCASES = (48, 1600)
+NCASES = (140, 1600)
 shrinkable = True
 RULE = ("generator W (gen/wsgen.py): virtual workspaces, depth 0-3, per level and name a conftest that is "
         "absent/defines/overrides/star-imports/explicitly imports/pytest_plugins-declares, helper chains and cycles, "
